@@ -37,6 +37,7 @@ type vconn struct {
 	yield      bool // every Read is a scheduling point (concurrency harnesses)
 	blockAtEnd bool // an idle client: Read at the end of the script blocks until the connection is closed
 	closedFlag bool
+	closeErr   bool // Close closes the socket but reports an error (as tls.Conn does when the close_notify alert cannot be sent)
 }
 
 func newVconn(in []byte) *vconn {
@@ -113,6 +114,9 @@ func (c *vconn) Close() error {
 	vsymSignal(&c.closed) // a real net.Conn may be closed from another goroutine
 	if c.blockAtEnd {
 		vsymSignal(&c.closedFlag)
+	}
+	if c.closeErr {
+		return errVconnReset
 	}
 	return nil
 }
